@@ -33,20 +33,20 @@ CLAIMS = {
              text="every renderer branch condition driven to both sides and every enum word enumerated; rendering compared line by line with an independent template instantiated from the frame's own decoded values; reference validated on the 44 pinned strings of the repository", ref="3 C11", note=E1_NOTE + "; templates without a pinned string are golden from the pinned tree"),
 }
 
-E2_NOTE = ("trusted: stateright 0.31 BFS; the harness's clock_gettime interposition (self-tested each run); the reference tracker; exact haversine; "
-           "depth-bounded (no fixpoint); oracles are evaluated on every generated state inside next_state (stateright itself skips the deepest level)")
+E2_NOTE = ("trusted: stateright 0.31 (bounded DFS with the depth in the state key; cross-checked against BFS counts on every C12 run); the harness's clock_gettime interposition (self-tested each run); the reference tracker; exact haversine; "
+           "depth-bounded (no fixpoint) plus periodic (lasso) histories: every word of period <= 2-3 repeated to 1200-3000 events; oracles are evaluated on every generated state inside next_state (stateright itself skips the deepest level)")
 for _pid, _ref, _txt in [
   ("C12", "3 C12", "all histories up to depth 4 (quick) / 5 (thorough) over a 37-letter frame alphabet (2-3 addresses x payload classes, DF18 with foreign PI, eight non-ES formats): key set, Added, message counts, non-ES no-ops, record isolation checked on every reachable state"),
-  ("C13", "3 C13", "all histories up to depth 4-6 (7 quick / 9 thorough on a single-aircraft sub-alphabet) of even/odd reports from a flight, range-boundary, jump-boundary (polar NL=1), garbage and second-aircraft letters, several receivers/ranges: published position, clearing, distance"),
+  ("C13", "3 C13", "all histories up to depth 4-6 (7 quick / 9 thorough on a single-aircraft sub-alphabet) of even/odd reports from a flight, range-boundary, jump-boundary (polar NL=1), garbage, second-aircraft and receiver-move letters, several receivers/ranges, 1 s and 100 s per event: published position, clearing, distance"),
   ("C14", "3 C14", "same state spaces plus identification/velocity letters: latest-wins attributes, details/all_position/Display views, distance-iff-position, track = superseded publications in order"),
   ("C15", "3 C15", "all interleavings up to depth 6 (quick) / 9 (thorough) of frames (identification, velocity, positions, unhandled types, DF18, non-ES), waits {1 ns, 0.4T, 0.6T, T-1ns, T} and prune(T), T in {0, 1, 10}: exact expiry set, untouched survivors, fresh record on re-appearance"),
 ]:
     CLAIMS[_pid] = dict(cat="model_checking", engine="E2-tracker",
-        tech="explicit-state model checking (stateright BFS) of the real Airplanes::action/prune, one event per transition under a virtual clock, against a reference tracker; every transition executes the implementation",
+        tech="explicit-state model checking (stateright bounded DFS, depth in the state key) of the real Airplanes::action/prune, one event per transition under a virtual clock, against a reference tracker; every transition executes the implementation; plus exhaustive enumeration of periodic histories (all words up to period 2-3, repeated to 1200-3000 events)",
         text=_txt, ref=_ref, note=E2_NOTE)
 
 CLAIMS["C19"] = dict(cat="fault_enumeration", engine="E3-reader",
-    tech="deviation-bounded exhaustive enumeration of environment schedules (all subsets of read calls preceded by Interrupted, all split sizes, <=3 mixed deviations) of a scripted Read+Seek against the real from_reader, per distinct read/seek pattern; from_reader == from_bytes",
+    tech="deviation-bounded exhaustive enumeration of environment schedules (all subsets of read calls preceded by Interrupted, all split sizes, <=3 mixed deviations, one-byte delivery with 1-2 Interrupted, Interrupted bursts, readers starting at an offset) of a scripted Read+Seek against the real from_reader, per distinct read/seek pattern; from_reader == from_bytes",
     text="every distinct read/seek pattern of the decoder under every placement of transient errors (all 2^R subsets in the thorough tier) and every short-read split; purity over all ordered triples", ref="3 C19",
     note="trusted: the scripted reader obeys the Read/Seek contracts; std build only (std::io read_exact/read_to_end retry semantics)")
 CLAIMS["C20"] = dict(cat="exploration", engine="E1-lattice",
@@ -63,7 +63,7 @@ CLAIMS["C17"] = dict(cat="model_checking", engine="E4-apps",
     tech="stateless bounded-depth model checking of the real radar binary under a pty: all event sequences up to depth 1-4 over the key/mouse/resize/traffic alphabet x delivery mode x terminal sizes x tracked-set contexts x option sets; CLI value alphabet",
     text="every sequence within the bound executed on the real process; oracle = alive until quit, exit 0, no panic text, termios restored, mouse reporting off, cursor shown; invalid CLI values -> usage error", ref="3 C17", note=E4_NOTE)
 CLAIMS["C18"] = dict(cat="model_checking", engine="E4-apps",
-    tech="stateless bounded-depth model checking of the real radar binary with screen reconstruction: all view-control sequences up to depth 2 (quick) / 3 (thorough) over feeds with aircraft and locations in all four quadrants",
+    tech="stateless bounded-depth model checking of the real radar binary with screen reconstruction: all view-control sequences up to depth 2 (quick) / 3 (thorough) over feeds with aircraft and locations in all four quadrants, two receivers (one next to the prime meridian), traffic arriving after the view controls",
     text="Airplanes tab cells and counters vs the real tracker library fed with the same lines; map geometry (order, 2:1 ratio); view sequences leave the data tab cell-for-cell unchanged and reset restores the initial map", ref="3 C18", note=E4_NOTE)
 
 NOT_YET = {
@@ -102,7 +102,7 @@ def main():
         },
         "engines": [
             {"name": "E1-lattice", "path": "harness/src/e1.rs", "serves_properties": ["C01","C02","C03","C04","C05","C06","C07","C08","C09","C10","C11"], "kind_free_text": "exhaustive input-lattice explorer over the real decoder with reference bit-slice decoder"},
-            {"name": "E2-tracker", "path": "harness/src/e2.rs", "serves_properties": ["C12","C13","C14","C15"], "kind_free_text": "stateright explicit-state BFS over the real Airplanes tracker with a reference tracker and virtual clock"},
+            {"name": "E2-tracker", "path": "harness/src/e2.rs", "serves_properties": ["C12","C13","C14","C15"], "kind_free_text": "stateright explicit-state search (bounded DFS / BFS) over the real Airplanes tracker with a reference tracker and virtual clock"},
             {"name": "E3-reader", "path": "harness/src/e3.rs", "serves_properties": ["C19"], "kind_free_text": "deviation-bounded environment-schedule explorer for Read+Seek"},
             {"name": "E4-apps", "path": "apps/e4.py", "serves_properties": ["C16","C17","C18"], "kind_free_text": "black-box pty/TCP explorer of the real radar and 1090 binaries"},
         ],
